@@ -85,6 +85,10 @@ type Engine struct {
 	poolPrivate              map[*Value]Value
 	syncMaps                 map[*Value]*MapV
 	solverAlt                string
+	par                      *parState
+	mutexes                  map[*Value]*mutexSt
+	auxN                     int
+	schedLog                 string
 	orderFree                map[*ssa.Range]bool
 }
 
